@@ -5,7 +5,7 @@
 # (the harness is built against the worktree through a -modfile copy of harness/go.mod; /repo is not touched),
 # record the outcome in seeded<wave>/Cxx/result.txt, then regenerate lean/Siot/Gen and the harness from /repo.
 id=$1; wt=$2; wave=${3:-2}
-cd /verif || exit 2
+cd "$(dirname "$0")" || exit 2
 d=seeded$wave/$id
 mkdir -p $d/demo
 cp $wt/../$id.patch.diff $d/patch.diff
